@@ -27,7 +27,7 @@
      C09_cycle_*                            cycle: argument (position mod n), position + 1
      C09_ifchanged_*                        ifchanged: when it fires, what it remembers *)
 From PV Require Import Model.Exec Model.Api Spec.SpecFlow.
-From PV Require Import Tie.C09.
+From PV Require Import gen.Scalar Tie.C09.
 From Coq Require Import Sorting.Permutation Sorting.Sorted.
 Open Scope N_scope.
 
@@ -540,3 +540,27 @@ Example C09_run_cycle_ifchanged :
     [([108], CV (as_value (VList [VInt 1; VInt 1; VInt 2; VInt 2; VInt 1])))]
   = OOk [97; 49; 98; 61; 97; 50; 98; 61; 97; 49].
 Proof. vm_compute. reflexivity. Qed.
+
+(* ---- the loop bookkeeping is the code's ----
+   [go_for_step] / [go_for_init] (gen/Scalar.v) are the statements of tagForNode.Execute that
+   update the loop information, translated from /repo on every run; [go_for_after k count] is
+   the loop information after iterations 0..k. It holds exactly the documented values, and
+   the model's forloop value carries those under the Go field names. *)
+Theorem C09_forloop_bookkeeping_is_the_code : forall (k : nat) (count : Z),
+  (Z.of_nat k < count)%Z -> (count < two63)%Z ->
+  go_for_after k count =
+  (Z.of_nat k + 1, Z.of_nat k, count - Z.of_nat k, count - (Z.of_nat k + 1),
+   (Z.of_nat k =? 0), (Z.of_nat k + 1 =? count))%Z.
+Proof. exact e2_for_fields. Qed.
+Print Assumptions C09_forloop_bookkeeping_is_the_code.
+
+Theorem C09_forloop_struct_is_the_record : forall idx count parent,
+  match loop_struct idx count parent with
+  | VStruct fields =>
+      map fst fields = go_for_fields ++ [[80; 97; 114; 101; 110; 116; 108; 111; 111; 112]%N] /\
+      map snd fields = [VInt (idx + 1); VInt idx; VInt (count - idx); VInt (count - (idx + 1));
+                        VBool (idx =? 0); VBool (idx + 1 =? count); parent]%Z
+  | _ => False
+  end.
+Proof. exact e2_loop_struct. Qed.
+Print Assumptions C09_forloop_struct_is_the_record.
